@@ -377,3 +377,13 @@ Theorem reference_evaluators_correct :
   (forall kind rA Q0 s, (0 < rA)%Q -> (0 < Q0)%Q -> ~ (cq_norm2 (eq_den_Q kind rA Q0 s) == 0)%Q ->
                         toC (H_eq_proto_Q kind rA Q0 s) = H_eq_proto kind (Q2R (rA * rA)) (Q2R Q0) (toC s)).
 Proof. exact (conj H_proto_Q_correct H_eq_proto_Q_correct). Qed.
+
+(** Outside the guard of the response theorems: a requested cutoff below fs/10000 is clamped, the filter is
+    the one for fs/10000 hertz — 10 Hz requested at 192 kHz gives the filter for 19.2 Hz (corner too high). *)
+Theorem filter_low_cutoff_clamped_refuted :
+  exists fc fs res : R,
+    0 < fs /\ 0 < fc /\ fc / fs < lit_1e4 /\
+    filter_coeffs PI lit_1e4 lit_half lit_1p9 tan fc res (1 / fs) =
+    filter_coeffs PI lit_1e4 lit_half lit_1p9 tan (lit_1e4 * fs) res (1 / fs) /\
+    lit_1e4 * fs = 96 / 5 /\ fc = 10 /\ prewarp fc fs < prewarp (lit_1e4 * fs) fs.
+Proof. exact filter_low_cutoff_clamped_refuted. Qed.
